@@ -160,7 +160,11 @@ def handle (op : String) (j : Json) : Except String Json := do
     let key ← keyFn (← (← j.getObjVal? "which").getStr?)
     let msgs ← msgsOfJson (← j.getObjVal? "msgs")
     let C ← cacheOfJson (← j.getObjVal? "cache")
-    pure (Json.mkObj [("events", evsTo (eventsFor key convC C msgs))])
+    pure (Json.mkObj [("events", evsTo (eventsFor key convTailC C msgs))])
+  | "convert" =>
+    let a ← (← j.getObjVal? "tails").getArr?
+    let tails ← a.toList.mapM msgsOfJson
+    pure (Json.mkObj [("tails", Json.arr (tails.map fun t => evsTo (convTailC t)).toArray)])
   | "serve" =>
     let key ← keyFn (← (← j.getObjVal? "which").getStr?)
     let turn ← turnOfJson (← j.getObjVal? "turn")
@@ -170,7 +174,7 @@ def handle (op : String) (j : Json) : Except String Json := do
       if h : p.size = 2 then do
         let c ← p[0].getNat?; let m ← msgsOfJson p[1]; pure (c, m)
       else throw "bad sched entry"
-    let steps := runT key convC turn [] sched
+    let steps := runT key convTailC turn [] sched
     pure (Json.mkObj [("steps", Json.arr (steps.map fun x => Json.mkObj [
       ("conv", Json.num (JsonNumber.fromNat x.1)),
       ("events", evsTo x.2.events), ("reply", msgTo x.2.reply), ("new", evsTo x.2.new)]).toArray)])
